@@ -14,8 +14,8 @@ func init() { props["C04"] = muxProp{4, genC04, oracleC04} }
 func genC04(r *Rng, tier string, emit func(string, Tok)) {
 	muxGenAll(r, tier, muxMix{
 		random: scale(tier, 150, 600), maxLen: scale(tier, 60, 400),
-		wrap: scale(tier, 4, 40), bigPMT: scale(tier, 15, 150), many: scale(tier, 30, 400), ood: scale(tier, 40, 400),
-		exhaustive: scale(tier, 3, 5),
+		wrap: scale(tier, 4, 40), bigPMT: scale(tier, 15, 150), many: scale(tier, 30, 400), readd: scale(tier, 15, 150), ood: scale(tier, 40, 400),
+		exhaustive: scale(tier, 3, 4),
 	}, emit)
 }
 
@@ -215,6 +215,9 @@ func oracleC04(period int, ops []muxOp, calls []muxCall) string {
 				continue
 			}
 			if !muxDataInDomain(o.d) {
+				if af := o.d.AdaptationField; af != nil && (af.StuffingLength != 0 || af.IsOneByteStuffing) {
+					continue // S1: writer-internal members set by the caller end up in the packet as they are
+				}
 				for k, p := range unit {
 					if p.bad != "" && o.d.PES != nil && o.d.PES.Header != nil && (o.d.AdaptationField == nil || afPointersOK(o.d.AdaptationField)) {
 						return at + fmt.Sprintf("packet %d not decodable: %s", k, p.bad)
